@@ -21,6 +21,10 @@ def run(ctx: Ctx, chk) -> None:
     chk.run_rule(flush_node, ctx)
     chk.run_rule(flush_once, ctx)
     chk.run_rule(keep1, ctx)
+    from . import c08 as _c08
+
+    chk.run_rule(_c08.flush_total, ctx)
+    chk.run_rule(sb.buffer_once, ctx)
 
 
 def keep1(ctx: Ctx, chk) -> None:
